@@ -1,9 +1,9 @@
 SPECIFICATION Spec
 CONSTANTS
- Catalogue <- Cat3
- MaxIn = 2
+ Catalogue <- Cat2
+ MaxIn = 1
  MaxOut = 1
- MaxProc = 1
+ MaxProc = 2
 INVARIANT WellFormed
 PROPERTY AbsSpec
 CHECK_DEADLOCK FALSE
